@@ -591,7 +591,7 @@ func execSession(x *fw.Ctx, c Case) {
 	nforms := len(a.Steps)
 	s1 := dir + "/s1.lisp"
 	s2 := dir + "/s2.lisp"
-	a.Steps = append(a.Steps, Step{Op: "snapshot", Margin: m, Path: s1})
+	a.Steps = append(a.Steps, Step{Op: "snapshot", Margin: m, Path: s1, Again: (m+len(c.Items))%3 == 0})
 	var probes []pref
 	for i, it := range c.Items {
 		for k, p := range it.Probes {
